@@ -7,7 +7,7 @@
    hash function.  The other theorems are its building blocks, stated for arbitrary element
    encodings.  Backings reached by mutation rather than construction are tied by the correspondence
    (and by C04's theorems where the mutated tree is shown to be a representation). *)
-Require Import RM.Base RM.Types RM.Spec RM.ModelViews RM.ModelCodec RM.SerLen RM.SerProofs RM.SerProofs2 RM.SerAll RM.CodecBasicProofs.
+Require Import RM.Base RM.Types RM.Spec RM.ModelViews RM.ModelCodec RM.SerLen RM.SerProofs RM.SerProofs2 RM.SerAll RM.CodecBasicProofs RM.ReprProofs.
 Local Open Scope N_scope.
 
 (* variable-size elements: offsets, then the elements; count = bytes written *)
@@ -51,6 +51,12 @@ Theorem C02_constructed : forall H src t v, wf_ty t = true -> wf t v = true ->
   exists n, mk H t v = Ok n /\ ser_impl H src t n = Ok (ser t v, lenN (ser t v)).
 Proof. exact ser_constructed_total. Qed.
 
+(* ... and not only the constructor's tree: ANY representation of the value (any mixture of zero
+   summaries and expanded zeros, as left behind by mutations) serialises to the spec bytes *)
+Theorem C02_any_representation : forall H src t v n, wf_ty t = true -> wf t v = true -> Repr H t v n ->
+  ser_impl H src t n = Ok (ser t v, lenN (ser t v)).
+Proof. exact Repr_ser. Qed.
+
 (* non-vacuity: nested types mixing every kind have well-formed values *)
 Example C02_constructed_nonvacuous :
   let t := TUnion true [TContainer [TUint 8; TList (TContainer [TBool; TUint 2; TBitlist 9]) 5; TByteVector 33];
@@ -74,3 +80,4 @@ Print Assumptions C02_uint.
 Print Assumptions C02_bool.
 Print Assumptions C02_length_within_bounds.
 Print Assumptions C02_constructed.
+Print Assumptions C02_any_representation.
